@@ -100,11 +100,28 @@ def c18_check(prop, tier, seed, replay):
             models.append(dict(name="Monitor.tla generator, MaxCalls=%d" % maxcalls, **{k: g[k] for k in ("generated", "distinct", "wall", "ok")}))
         pool = [e for n, e, r_ in K.family("E33")] + [e for n, e, r_ in K.family("E44") if len(e) == 4][:300]
         cases = []
+        # every history four times: with the default options, with the network-simplex positioner in every call (it runs the
+        # phase-2 processor INSIDE phase 4), with Brandes-Koepf + the spline router (the two phases that talk to the monitor most),
+        # and with a random algorithm choice per call - the life-cycle of the monitor must not depend on the algorithms
+        variants = [None, dict(P4="nspos", P5="poly"), dict(P4="bk", P5="splines", Sized=True), "random"]
+        if replay:
+            variants = [None]
         for i, s in enumerate(scripts):
-            steps = []
-            for st in s["script"]:
-                steps.append({"mon": st["mon"], "kind": st["kind"], "edges": rng.choice(pool) if st["kind"] == "ok" else []})
-            cases.append({"case": i + 1, "script": steps, "delivered": s.get("delivered", [])})
+            for vi, var in enumerate(variants):
+                steps = []
+                for st in s["script"]:
+                    step = {"mon": st["mon"], "kind": st["kind"],
+                            "edges": st["edges"] if "edges" in st else (rng.choice(pool) if st["kind"] == "ok" else [])}
+                    if replay and "P4" in st:
+                        step.update({k: st[k] for k in ("P1", "P2", "P4", "P5", "Sized") if k in st})
+                    if var == "random":
+                        step.update(P1=rng.choice(["greedy", "dfs"]), P2=rng.choice(["ns", "lp"]),
+                                    P4=rng.choice(["sink", "nspos", "nspos", "bk", "valign", "pack"]),
+                                    P5=rng.choice(["poly", "ortho", "straight", "splines", "noop"]), Sized=True)
+                    elif var:
+                        step.update(var)
+                    steps.append(step)
+                cases.append({"case": len(cases) + 1, "script": steps, "delivered": s.get("delivered", [])})
         nsh = min(8, max(1, len(cases) // 50))
         dirs = []
         for k in range(nsh):
